@@ -300,30 +300,6 @@ Proof.
   apply in_flat_map. exists sk. split; auto. unfold export_sub. right. apply export_sigs_in; auto.
 Qed.
 
-Lemma fold_sub_set_keeps : forall (f : subkey -> subkey) l acc sk,
-  (forall x, sk_label (f x) = sk_label x) -> In sk l ->
-  exists sk1, In sk1 (fold_left (fun a x => sub_set (f x) a) l acc) /\ sk_label sk1 = sk_label sk.
-Proof.
-  intros f l. induction l as [|x l IH]; intros acc sk Hf Hin; [destruct Hin|].
-  simpl. destruct Hin as [E|Hin].
-  - subst x. clear IH.
-    assert (forall l' acc', (exists y, In y acc' /\ sk_label y = sk_label sk) ->
-              exists sk1, In sk1 (fold_left (fun a x => sub_set (f x) a) l' acc') /\ sk_label sk1 = sk_label sk) as G.
-    { induction l' as [|z l' IH']; intros acc' [y [Hy Ey]]; simpl; [exists y; auto|].
-      apply IH'. clear IH'. induction acc' as [|w r IHr]; [destruct Hy|]. simpl.
-      destruct (sk_label w =? sk_label (f z)) eqn:E.
-      - destruct Hy as [Hy|Hy].
-        + subst w. exists (f z). split; [left; reflexivity|]. apply Z.eqb_eq in E. congruence.
-        + exists y. split; [right; exact Hy | exact Ey].
-      - destruct Hy as [Hy|Hy].
-        + subst w. exists y. split; [left; reflexivity | exact Ey].
-        + destruct (IHr Hy) as [y' [H1 H2]]. exists y'. split; [right; exact H1 | exact H2]. }
-    apply G. clear G. exists (f sk). split; [|apply Hf].
-    induction acc as [|w r IHr]; simpl; [left; reflexivity|].
-    destruct (sk_label w =? sk_label (f sk)); [left; reflexivity | right; exact IHr].
-  - apply IH; auto.
-Qed.
-
 Theorem explicit_exportable_true_kept : forall k, wf_pub k ->
   exists k1, import (export k) = Ok [k1]
   /\ (forall s, In s (tops (p_sigs k)) -> c_exp (s_core s) = Some true -> In s (tops (p_sigs k1)) /\ In (PSig s) (export k1))
